@@ -40,6 +40,9 @@ class Monitor:
     def on_rpc_done(self, world, call, ok):
         pass
 
+    def on_request_done(self, world, call, ok, result, txns):
+        """txns: [("commit"|"rollback", snapshot before, snapshot after)] of this request."""
+
     def on_cmd_start(self, world, proc):
         pass
 
@@ -1155,3 +1158,195 @@ class OutputRecorder(Monitor):
                 self.ever_declared.add(path)
             elif state in (F["CONFIRMED"], F["MISSING"], F["UNCONFIRMED"]) and not n[3]:
                 self.ever_static.add(path)
+
+
+# =============================================================================================
+# C08 / C15: ownership invariants, accepted => effect, rejected => unchanged
+# =============================================================================================
+
+
+def snapshots_equal(a, b, ignore=()):
+    """Equality of the persistent tables, ignoring the scheduler's recomputation flags."""
+    if a is None or b is None:
+        return True, ""
+    for name in ("nodes", "deps", "files", "step_hash", "dyn", "env", "nglob", "res"):
+        if name in ignore:
+            continue
+        if getattr(a, name) != getattr(b, name):
+            da, db_ = getattr(a, name), getattr(b, name)
+            diff = [k for k in set(da) | set(db_) if da.get(k) != db_.get(k)][:3]
+            return False, f"table {name} differs at {diff}: {[da.get(k) for k in diff]} -> {[db_.get(k) for k in diff]}"
+    for i in set(a.steps) | set(b.steps):
+        ra, rb = a.steps.get(i), b.steps.get(i)
+        if ra is None or rb is None:
+            return False, f"step row {i} appeared/disappeared"
+        for col in ("state", "need", "deferred", "defer_count", "shell", "env_overrides", "_holding", "duration"):
+            if ra[COL[col]] != rb[COL[col]]:
+                return False, f"step {a.key(i)}.{col}: {ra[COL[col]]} -> {rb[COL[col]]}"
+    return True, ""
+
+
+class OwnershipMonitor(Monitor):
+    """C08: one owner per path, trees own everything beneath them, patterns match no product."""
+
+    name = "ownership"
+
+    def __init__(self):
+        super().__init__()
+        self.seen_pairs = set()
+
+    def on_commit(self, world, prev, snap, info):
+        import re
+
+        self.count("commits")
+        nodes = snap.nodes
+        trees = [(label, i) for i, (kind, label, c, det) in nodes.items() if kind == "st" and not det]
+        for k, (ta, ia) in enumerate(trees):
+            for tb, ib in trees[k + 1 :]:
+                if ta.startswith(tb) or tb.startswith(ta):
+                    self.violate("R-own/trees", "nested-trees", f"static trees overlap: {ta} and {tb}", "nested-trees")
+        products = []
+        for i, (kind, label, c, det) in nodes.items():
+            if kind != "file" or det or i not in snap.files:
+                continue
+            role = ROLE[snap.files[i][0]]
+            if role in ("OUTPUT", "VOLATILE"):
+                products.append(label)
+            for tl, ti in trees:
+                if label.startswith(tl) and c != ti:
+                    self.violate(
+                        "R-own/tree-file", "file-under-tree-other-owner",
+                        f"{label} ({FNAME[snap.files[i][0]]}) lies under static tree {tl} but is owned by {snap.key(c) if c in nodes else c}",
+                        "file-under-tree",
+                    )
+        if products:
+            for (node, pat, rx, data) in snap.nglob.values():
+                if node in nodes and not nodes[node][3]:
+                    cre = re.compile(rx)
+                    for p in products:
+                        if cre.fullmatch(p):
+                            pair = (nodes[node][1], pat, p)
+                            if pair in self.seen_pairs:
+                                continue
+                            self.seen_pairs.add(pair)
+                            key = "glob-matches-product"
+                            task = info.get("task", "")
+                            if task.startswith(("RPC:declare_static", "RPC:register_glob")):
+                                # known finding F11: the pattern arrived second and the product
+                                # is not on disk, so it is not among the matches that are validated
+                                key += ":pattern-registered-after-planned-output"
+                            self.violate(
+                                "R-own/glob", "glob-matches-product",
+                                f"pattern {pat} of {nodes[node][1]} matches build product {p} "
+                                f"(first seen at the commit of {task})",
+                                key,
+                            )
+
+    def on_request_done(self, world, call, ok, result, txns):
+        """An accepted declaration is in effect, held by its declarer, right after its commit."""
+        if not ok or not txns or call.name not in ("declare_static", "define_step", "amend_step", "register_glob"):
+            return
+        kind, before, after = txns[0] if call.name != "amend_step" else txns[0]
+        if kind != "commit" or after is None:
+            return
+        self.count("accepted." + call.name)
+        snap = after
+        job = call.args[0]
+        declarer = world.handler.scheduler.jobs.get(job) if world.handler is not None else None
+        if declarer is None:
+            return
+        did = declarer.i
+        by_label = {}
+        for i, (k, label, c, det) in snap.nodes.items():
+            by_label[(k, label)] = i
+
+        def owner_ok(i, expect_creator):
+            c = snap.nodes[i][2]
+            if c == expect_creator:
+                return True
+            # handed over to a tree of the same declarer
+            return c in snap.nodes and snap.nodes[c][0] == "st" and snap.nodes[c][2] == expect_creator
+
+        def check_file(path, roles, creator, what):
+            i = by_label.get(("file", str(path)))
+            if i is None or i not in snap.files:
+                self.violate("R-own/effect", "accepted-without-effect", f"{what}: no node for {path} after the accepted request", "accepted-no-effect")
+                return
+            if snap.nodes[i][3]:
+                if not snap.nodes[did][3]:
+                    self.violate("R-own/effect", "accepted-without-effect", f"{what}: {path} is detached after the accepted request", "accepted-no-effect")
+                return
+            if ROLE[snap.files[i][0]] not in roles:
+                self.violate("R-own/effect", "accepted-other-role", f"{what}: {path} has role {ROLE[snap.files[i][0]]} after the accepted request", "accepted-other-role")
+            elif creator is not None and not owner_ok(i, creator):
+                self.violate("R-own/effect", "accepted-other-owner",
+                             f"{what}: {path} is owned by {snap.key(snap.nodes[i][2])}, not by the declarer {snap.key(creator)}", "accepted-other-owner")
+
+        if call.name == "declare_static":
+            _, tree_paths, file_paths, patterns = call.args[:4]
+            for t in tree_paths:
+                label = str(t).rstrip("/") + "/"
+                cover = [i for i, (k, lab, c, det) in snap.nodes.items() if k == "st" and not det and label.startswith(lab)]
+                if not cover:
+                    self.violate("R-own/effect", "accepted-without-effect", f"static tree {label} accepted but no attached tree covers it", "accepted-no-effect")
+                elif not any(snap.nodes[i][2] == did for i in cover):
+                    self.violate("R-own/effect", "accepted-other-owner", f"static tree {label} accepted for {snap.key(did)} but is covered by another creator's tree", "accepted-other-owner")
+            for f in file_paths:
+                check_file(f, ("STATIC",), did, f"static({f})")
+        elif call.name == "define_step":
+            from stepup.core.step import Step
+
+            _, command, inp, env, out, vol, workdir = call.args[:7]
+            try:
+                label = Step.adjust_label(command, workdir=_norm_wd(workdir))
+            except Exception:  # noqa: BLE001
+                return
+            sid = by_label.get(("step", label))
+            if sid is None:
+                self.violate("R-own/effect", "accepted-without-effect", f"step {label} accepted but absent", "accepted-no-effect")
+                return
+            if snap.nodes[sid][2] != did:
+                self.violate("R-own/effect", "accepted-other-owner", f"step {label} accepted for {snap.key(did)} but created by {snap.key(snap.nodes[sid][2])}", "accepted-other-owner")
+            for o in out:
+                check_file(o, ("OUTPUT",), sid, f"out of {label}")
+            for v in vol:
+                check_file(v, ("VOLATILE",), sid, f"vol of {label}")
+        elif call.name == "amend_step":
+            _, inp, env, out, vol = call.args[:5]
+            for o in out:
+                check_file(o, ("OUTPUT",), did, f"amended out of {snap.key(did)}")
+            for v in vol:
+                check_file(v, ("VOLATILE",), did, f"amended vol of {snap.key(did)}")
+
+
+class AtomicityMonitor(Monitor):
+    """C15: a rejected request leaves no trace; one transaction per mutating request."""
+
+    name = "atomicity"
+    ONE_TXN = ("declare_static", "define_step", "register_glob", "hold_dispatch", "release_dispatch")
+
+    def on_request_done(self, world, call, ok, result, txns):
+        self.count("requests")
+        name = call.name
+        if not ok:
+            self.count("rejected")
+            for kind, before, after in txns:
+                if kind == "commit":
+                    # a failing request committed something
+                    if name == "amend_step" and txns[-1][0] != "rollback":
+                        continue
+                    self.violate("R-atomic/partial", "rejected-but-committed",
+                                 f"{name} failed ({getattr(result, 'qualname', '?')}: {getattr(result, 'message', '')[:200]}) after committing a transaction",
+                                 "rejected-but-committed")
+                else:
+                    same, why = snapshots_equal(before, after)
+                    self.count("rollbacks_compared")
+                    if not same:
+                        self.violate("R-atomic/rollback", "rejected-left-trace",
+                                     f"{name} was rejected ({getattr(result, 'qualname', '?')}) but the stored workflow changed: {why}",
+                                     "rejected-left-trace")
+        else:
+            ncommit = sum(1 for k, _, _ in txns if k == "commit")
+            if name in self.ONE_TXN and ncommit != 1:
+                self.violate("R-atomic/one-txn", "not-one-transaction",
+                             f"{name} succeeded with {ncommit} committed transactions", "not-one-transaction")
